@@ -985,6 +985,23 @@ impl<'a> Ctx<'a> {
                 let Some(to) = d.tests.iter().find(|t| t.nonce == tj.nonce) else {
                     continue;
                 };
+                // a test case that never reached a shell wrote nothing: whatever is recorded for it
+                // carries no bytes
+                if tj.pid.is_none() && !tj.detached && self.facts.fault_kinds.is_empty() {
+                    if let Some(raw) = &to.raw {
+                        if !raw.stdout.0.is_empty() || !raw.stderr.0.is_empty() {
+                            out.push(v(
+                                "C13",
+                                "bytes-differ",
+                                Some(&tj.nonce),
+                                format!(
+                                    "test {} never ran, yet it is recorded with stdout {:?} stderr {:?}",
+                                    tj.nonce, raw.stdout, raw.stderr
+                                ),
+                            ));
+                        }
+                    }
+                }
                 let (Some(raw), Some((eo, ee, code))) = (&to.raw, &tj.raw) else {
                     continue;
                 };
